@@ -33,12 +33,18 @@ let show_x = function Fin v -> string_of_q v | NaN -> "nan" | PInf -> "inf" | NI
 let show_xs l = String.concat " " (List.map show_x l)
 let show_mx = function XFin v -> string_of_q v | XNaN -> "nan" | XPInf -> "inf" | XNInf -> "-inf"
 
-type per_o = { un : xnum list; nm : xnum list; pun : xnum list; pnm : xnum list; pnv : xnum list }
+type per_o = { un : xnum list; nm : xnum list; pun : xnum list; pnm : xnum list; pnv : xnum list;
+               pua : xnum list; pna : xnum list }   (* aliased in/out second stage; [] when not exercised *)
+
+(* the harness exercises the in-place second stage only on models with dense observation matrices or the
+   query loop (with sparse observation matrices it already fails on the unchanged tree, see notes) *)
+let alias_ok (k : string) : bool =
+  not (String.length k >= 6 && String.sub k 0 6 = "sparse") && not (String.length k >= 5 && String.sub k 0 5 = "mixSD") && k <> "userCS"
 type per_a = { part : xnum list; rew : xnum; os : per_o list }
 type out = { sosa : xnum list list list;   (* [a][o] -> S*S row-major *)
              bels : per_a list list }      (* [belief][a] *)
 
-let read_out r s a o nb : out =
+let read_out ?(alias = false) r s a o nb : out =
   let sosa = read_n r a (fun r -> read_n r o (fun r -> read_n r (s * s) next_x)) in
   let bels = read_n r nb (fun r -> read_n r a (fun r ->
       let part = read_n r s next_x in
@@ -47,7 +53,9 @@ let read_out r s a o nb : out =
           let un = read_n r s next_x in let nm = read_n r s next_x in
           let pun = read_n r s next_x in let pnm = read_n r s next_x in
           let pnv = read_n r s next_x in
-          { un; nm; pun; pnm; pnv }) in
+          let pua = if alias then read_n r s next_x else [] in
+          let pna = if alias then read_n r s next_x else [] in
+          { un; nm; pun; pnm; pnv; pua; pna }) in
       { part; rew; os })) in
   { sosa; bels }
 
@@ -73,7 +81,7 @@ let judge_state ~(exact : bool) ~(s : int) ~(a : int) ~(o : int) ~(beliefs : q l
   let thrown = ref [] in
   let outs = List.concat_map (fun k ->
       match next r with
-      | "ok" -> [(k, read_out r s a o nb)]
+      | "ok" -> [(k, read_out ~alias:(alias_ok k) r s a o nb)]
       | "throw" -> let e = next r in thrown := (k, e) :: !thrown; []
       | "THROW" -> oracle_fail "paths_agree" ("construct<" ^ k ^ ">") ("exception escaped the harness: " ^ next r)
       | t -> failwith ("unexpected token in implementation output: " ^ t)) kinds in
@@ -173,6 +181,15 @@ let judge_state ~(exact : bool) ~(s : int) ~(a : int) ~(o : int) ~(beliefs : q l
                   check_norm "normalised_is_posterior" (site "updateBelief" k) po.nm;
                   check_norm "normalised_is_posterior" (site "updateBeliefPartialNormalized" k) po.pnm;
                   check_norm "normalised_is_posterior" (site "updateBeliefPartialNormalized(value)" k) po.pnv;
+                  (* the element-wise second stage used in place (output = input) gives the same as with separate vectors *)
+                  if alias_ok k then begin
+                    let st2a = site "updateBeliefPartialUnnormalized(in-place)" k in
+                    let pua = List.map (fin "two_stage_eq" st2a) po.pua in
+                    if not (same_l pua spec) then
+                      oracle_fail "two_stage_eq" st2a
+                        (Printf.sprintf "b#%d a=%d o=%d: in-place second stage [%s], Bayes filter [%s]" bi ai oi (str_qs pua) (str_qs spec));
+                    check_norm "normalised_is_posterior" (site "updateBeliefPartialNormalized(in-place)" k) po.pna
+                  end;
                   (* boundary: exactly constant observation column c > 0 => P(o|b,a) = c and posterior = prediction *)
                   (if exact then match List.map (fun row -> List.nth row oi) (List.nth tO ai) with
                      | c0 :: rest when q_lt q_zero c0 && List.for_all (q_eq c0) rest ->
@@ -367,6 +384,17 @@ let judge _id (c : cursor) (r : cursor) : bool * string =
         if acc_md <> expect_acc then disagree "step" setter (Printf.sprintf "op #%d: model step %s" k (if acc_md then "accepts" else "rejects"));
         if not (tables_eq st_md'.pm.p st_or'.pm.p && tables_eq st_md'.ob st_or'.ob && tables_eq [st_md'.pm.r] [st_or'.pm.r]) then
           disagree "step" setter (Printf.sprintf "op #%d: model state differs from the tables of the last accepted calls" k);
+        (* probe: the same by-value query as the last one before the setter, answered from the current tables *)
+        let bl = List.nth beliefs (List.length beliefs - 1) in
+        let want = tau_step_r st_or' bl (n (a - 1)) (n (o - 1)) in
+        List.iter (fun k' ->
+            let st = "updateBeliefUnnormalized(value)<" ^ k' ^ ">" in
+            let got = List.map (fin "unnorm_is_bayes" st) (read_n r s next_x) in
+            let ok = List.length got = List.length want && List.for_all2 (fun x y -> if exact then q_eq x y else fclose x y) got want in
+            if not ok then
+              oracle_fail "unnorm_is_bayes" st
+                (Printf.sprintf "%s: repeated query (last belief, a=%d, o=%d) gives [%s], Bayes filter of the current tables [%s]" ctx (a - 1) (o - 1) (str_qs got) (str_qs want)))
+          kinds;
         snapshot ctx st_or';
         (k + 1, st_or', st_md')) (1, m0, m0) ops in
     finish (if !rejected_seen then "hist-rej-" else "hist-") !flags
@@ -390,7 +418,7 @@ let judge _id (c : cursor) (r : cursor) : bool * string =
         | "THROW" -> oracle_fail "paths_agree" ("construct<" ^ k ^ ">") ("exception escaped the harness: " ^ next r)
         | "ok" ->
           incr built;
-          let out = read_out r s a o nb in
+          let out = read_out ~alias:(alias_ok k) r s a o nb in
           List.iteri (fun bi per_b ->
               let b = List.nth beliefs bi in
               List.iteri (fun ai pa ->
